@@ -194,6 +194,14 @@ def run(chk):
     # ---- V admission dominance
     admission(chk, c, 'C10-V')
 
+    chk.rule('C10-D', 'decision structure of the functions this property is anchored in: every effect statement (store, call, return, '
+                   'raise) runs under the same combinations of the function\'s elementary tests as in the reviewed tree, and none '
+                   'was deleted (reference/decisions.json; compared by meaning, rewritten functions are not compared)')
+    from . import guardrules as _gr
+    nd2_ = _gr.check_decisions(chk, c, 'C10-D', lambda fq_: fq_.startswith(('core.Element.',)))
+    chk.floor('functions compared with the decision reference (C10-D)', nd2_, 1)
+
+
 
 def admission(chk, c, rule):
     """shared with C05-D"""
